@@ -211,7 +211,7 @@ fn case_json(zoo: &Zoo, c: &Case) -> J {
     json!({"module_text": e.text(), "module": e.module.name, "type": e.def.name, "asn1": vcore::print::type_text(&e.def.ty), "pattern": c.pattern, "value_brief": c.value.brief(), "value": serde_json::to_value(&c.value).unwrap()})
 }
 
-const RULE: &str = "bounded-exhaustive: every SEQUENCE and SET shape with <= N components (N = 3 quick, 5 thorough; each component mandatory / OPTIONAL / DEFAULT, extension marker at every position or absent; component types rotate through INTEGER(0..255), BOOLEAN, IA5String(SIZE(1..3)), INTEGER(-8..7), a referenced ENUMERATED, NULL; a second family with <= 2 components whose types are a reference to an alias of INTEGER, a reference to a plain SEQUENCE and an inline plain SEQUENCE (types that bring a scope of their own); SET shapes carry explicit tags that reverse the root order), compiled through the real pipeline; for every shape all 2^k presence patterns (a third, wide family - SEQUENCE / SET with 63, 64, 65, 70, 130 OPTIONAL/DEFAULT root components and extensible SEQUENCEs with 63, 64, 65, 70 extension additions - has its patterns sampled: none, all, single flags at the ends and at 62..65, pairs with the first flag, 24 random vectors) (k = OPTIONAL/DEFAULT root components + extension additions; DEFAULT: equal to / different from the default) x 3 random payloads. Oracle: preamble computed from shape and pattern; whole encoding == reference; decode returns the written presence; Err only ExtensionFieldsInconsistent and only for 'first addition absent, later present' - and for that pattern the reference encoder's bits (what a peer may send) must decode to the pattern. Non-trivial: shape has >= 1 OPTIONAL/DEFAULT/extension component; distinct = (shape, pattern, payload).";
+const RULE: &str = "bounded-exhaustive: every SEQUENCE and SET shape with <= N components (N = 3 quick, 5 thorough; each component mandatory / OPTIONAL / DEFAULT, extension marker at every position or absent; component types rotate through INTEGER(0..255), BOOLEAN, IA5String(SIZE(1..3)), INTEGER(-8..7), a referenced ENUMERATED, NULL; a second family with <= 2 components whose types are a reference to an alias of INTEGER, a reference to a plain SEQUENCE and an inline plain SEQUENCE (types that bring a scope of their own); SET shapes carry explicit tags that reverse the root order), compiled through the real pipeline; for every shape all 2^k presence patterns (a third, wide family - SEQUENCE / SET with 63, 64, 65, 70, 130 OPTIONAL/DEFAULT root components and extensible SEQUENCEs with 63, 64, 65, 70 extension additions - has its patterns sampled: none, all, single flags at the ends and at 62..65, pairs with the first flag, 24 random vectors) (k = OPTIONAL/DEFAULT root components + extension additions; DEFAULT: equal to / different from the default) x 8 (thorough: 16) random payloads. Oracle: preamble computed from shape and pattern; whole encoding == reference; decode returns the written presence; Err only ExtensionFieldsInconsistent and only for 'first addition absent, later present' - and for that pattern the reference encoder's bits (what a peer may send) must decode to the pattern. Non-trivial: shape has >= 1 OPTIONAL/DEFAULT/extension component; distinct = (shape, pattern, payload).";
 
 pub fn run(ctx: Ctx) -> i32 {
     let report = Report::new(ctx.clone(), RULE);
@@ -245,7 +245,7 @@ pub fn run(ctx: Ctx) -> i32 {
             let (f, _) = fields_of(&zoo.entries[ei]).unwrap();
             let n_root = f.root.unwrap_or(f.comps.len());
             let has_decision = f.comps.iter().enumerate().any(|(i, c)| i >= n_root || c.presence != Presence::Mandatory);
-            for c in cases_of(&zoo, ei, 3, &mut rng) {
+            for c in cases_of(&zoo, ei, report.ctx.tier.pick(8, 16), &mut rng) {
                 local.eval();
                 if has_decision {
                     local.nontrivial(hash_of(&(ei, &c.pattern, &c.value)));
